@@ -74,6 +74,18 @@ CHECKS = {
         "assumptions": ["gogo-protobuf Size()/Marshal() are consistent", "the shape alphabet is representative of RPC structure (sizes are not)"],
         "design_ref": "DESIGN.md §5 C11",
     },
+    "C13": {
+        "level": "model_checking", "shards": 5, "deadline_quick": 110, "deadline_thorough": 1800,
+        "engine": "E-WORLD",
+        "technique": "explicit-state model checking of the implementation: BFS by replay over the life of one remote peer, with a retention suffix and an implementation-agnostic reflection scan of the whole object graph at every explored state",
+        "rule": WORLD_RULE + "; at every state the leaf event 'retire' (close everything of the peer, advance 12.5 virtual minutes with heartbeats, scan) is applied",
+        "level_text": "every history up to the depth bound over connect / disconnect, blocked, failing and late stream establishment, inbound close / reset / reopen, outbound reset, every RPC kind, "
+                      "a message parked in validation that outlives the peer, for peers of all five protocol versions, with scoring, gater, extensions and connection-manager tagging enabled; "
+                      "after the retention suffix a reflection scan of everything reachable from the PubSub object (and the conn manager) must not find the peer's ID anywhere",
+        "level_note": "excluded from the scan: the configured blacklist, the host's peerstore (stub), buffered application data inside subscription channels, harness tracers",
+        "assumptions": COMMON_ASSUME,
+        "design_ref": "DESIGN.md §5 C13",
+    },
     "C15": {
         "level": "model_checking", "variants": ["main", "sched"], "shards": 15, "deadline_quick": 90, "deadline_thorough": 900,
         "engine": "E-SEQ + E-SCHED",
